@@ -75,11 +75,16 @@ class StandardQTomographyBasedWeightedRelativeEntropy(WeightedRelativeEntropy):
         # calc the extend weights.
         # "extend weights" is a vector that expands the weight vector to fit the size of the probability distributions.
         # this is used in the "value" function and "gradient" function for fast computation.
-        if self.weights is not None:
+        if self.weights is not None and self.prob_dists_q is not None:
             extend_weights = []
             for weight, prob_dist in zip(self.weights, self.prob_dists_q):
                 extend_weights += [weight] * len(prob_dist)
             self._extend_weights = np.array(extend_weights, dtype=np.float64)
+
+    def set_weights(self, weights: List[float]) -> None:
+        """sets weights and rebuilds the extended weights derived from them."""
+        super().set_weights(weights)
+        self._calc_extend_weights()
 
     def set_prob_dists_q(self, prob_dists_q: List[np.ndarray]) -> None:
         """sets vectors of ``q``, by default None.
